@@ -31,6 +31,12 @@ type SpecCase struct {
 
 type GhostVar struct{ Name, Type string }
 
+type TaintDecl struct {
+	E    Expr
+	Bits uint8
+	Tags []string
+}
+
 type Contract struct {
 	Key      string
 	Kind     string // func | trusted | interface
@@ -49,6 +55,8 @@ type Contract struct {
 	GhostIncSite []string // counters incremented only where an interface contract is applied at a dynamic call
 	GhostSet map[string]int64 // ghost variables set on entry
 	Implements []string       // interface-method contracts whose clauses this function inherits
+	Taints   []TaintDecl       // taint sources: locations labelled at entry (C18)
+	TaintAware bool            // the contract states taint explicitly (no default propagation)
 	Alias    map[string]int    // extra parameter names (of inherited clauses) -> parameter index
 	Inl      bool // callers inline the body instead of using the contract
 	Witness  []string
@@ -199,7 +207,7 @@ func (e *Engine) loadContractFile(path, pkgShort string) error {
 		lines = append(lines, logical{t, i + 1})
 	}
 	isStart := func(s string) bool {
-		for _, k := range []string{"func ", "trusted func ", "interface ", "spec ", "ghostvar ", "propset ", "requires", "ensures", "modifies", "loop ", "ghost ", "also", "pure", "noinline", "inline", "ghostinc_callsite ", "ghostinc ", "ghostset ", "implements ", "unverified", "witness ", "lemma ", "assert", "at "} {
+		for _, k := range []string{"func ", "trusted func ", "interface ", "spec ", "ghostvar ", "propset ", "requires", "ensures", "modifies", "loop ", "ghost ", "also", "pure", "noinline", "inline", "taints", "ghostinc_callsite ", "ghostinc ", "ghostset ", "implements ", "unverified", "witness ", "lemma ", "assert", "at "} {
 			if strings.HasPrefix(s, k) {
 				return true
 			}
@@ -298,6 +306,25 @@ func (e *Engine) loadContractFile(path, pkgShort string) error {
 			if cur.Unverified == "" {
 				cur.Unverified = "body not verified against this contract"
 			}
+		case strings.HasPrefix(t, "taints"):
+			rest := strings.TrimSpace(t[len("taints"):])
+			var ttags []string
+			if strings.HasPrefix(rest, "[") {
+				if j := strings.Index(rest, "]"); j > 0 {
+					ttags = parseTags(rest[1:j])
+					rest = strings.TrimSpace(rest[j+1:])
+				}
+			}
+			j := strings.LastIndex(rest, " ")
+			if j < 0 {
+				return fmt.Errorf("%s:%d: taints needs expression and label bits", path, l.line)
+			}
+			bits, _ := strconv.Atoi(strings.TrimSpace(rest[j+1:]))
+			ex, err := parseExpr(rest[:j])
+			if err != nil {
+				return fmt.Errorf("%s:%d: taints: %v", path, l.line, err)
+			}
+			cur.Taints = append(cur.Taints, TaintDecl{ex, uint8(bits), ttags})
 		case strings.HasPrefix(t, "implements "):
 			cur.Implements = append(cur.Implements, strings.TrimSpace(t[len("implements "):]))
 		case strings.HasPrefix(t, "ghostset "):
@@ -369,6 +396,9 @@ func (e *Engine) loadContractFile(path, pkgShort string) error {
 			}
 			ord++
 			cl := &Clause{Tags: parseTags(m[2]), E: ex, Text: m[3], Ord: ord, File: path, Line: l.line}
+			if m[1] == "ensures" && (strings.Contains(m[3], "tainted(") || strings.Contains(m[3], "taintkeys(") || strings.Contains(m[3], "untainted")) {
+				cur.TaintAware = true
+			}
 			switch m[1] {
 			case "requires":
 				curCase.Requires = append(curCase.Requires, cl)
